@@ -93,6 +93,7 @@ type env struct {
 	clos   *ssa.MakeClosure
 	depth  int
 	tag    string // call path, for diagnostics
+	site   string // chain of call-instruction names leading to this activation
 	top    string // name of the exported method under evaluation
 	reach  map[*ssa.BasicBlock]bool
 	memo   map[ssa.Value]Val
@@ -106,6 +107,7 @@ type Evaluator struct {
 	Role     string
 	Pkg      *ssa.Package
 	nextList int
+	curCall  *ssa.Call
 	lists    map[int]*ListV
 	fieldMemo map[string]Val
 	busyField map[string]bool
@@ -1154,6 +1156,11 @@ func (x *Evaluator) evalFieldRead(a *ssa.FieldAddr, t types.Type, e *env, c *eva
 		x.fieldMemo[key] = v
 		return v
 	}
+	if isInt(t) && e.site != "" && storesField(a.Parent(), a) {
+		// a counter read inside an inlined allocator (reads and bumps the counter):
+		// distinguish the activations
+		return IntV{Origin: "field:" + name + "@" + e.site}
+	}
 	return x.symbolic(t, "field:"+name)
 }
 
@@ -1452,4 +1459,18 @@ func (x *Evaluator) charCompare(ch charOf, other Val, op token.Token, e *env, c 
 		}
 	}
 	return BoolV{Desc: pos + "-char(" + s.String() + ")" + op.String() + ot, Data: data}
+}
+
+// storesField: fn contains a store to the same struct field as fa.
+func storesField(fn *ssa.Function, fa *ssa.FieldAddr) bool {
+	for _, b := range fn.Blocks {
+		for _, ins := range b.Instrs {
+			if st, ok := ins.(*ssa.Store); ok {
+				if f2, ok := st.Addr.(*ssa.FieldAddr); ok && f2.Field == fa.Field && types.Identical(f2.X.Type(), fa.X.Type()) {
+					return true
+				}
+			}
+		}
+	}
+	return false
 }
